@@ -9,20 +9,99 @@ import rejmodels
 
 CALLS = {}
 
+KNOWN_STALE = 'stale-order-after-remove-store-same-context'
 
-def counting_sim(*params, batch_size=1, random_state=None, width=2, key=None):
+DTYPES_SIM = ['f8', 'f8', 'f4', 'i8', 'i4', '>f8']                 # dtypes a simulator batch may have in the inference runs
+DTYPES_STORE = ['f8', 'f4', 'i8', 'i4', 'u1', '>f8', '>i4', 'c16', 'b1', 'f2']   # ... and in the direct pool round trips
+
+
+def relayout(a, layout):
+    """An array with the values, shape and dtype of `a` but another memory layout.
+    layout: 'C' | 'F' | 'perm:<axes>' (contiguous in a permuted axis order) | 'strided:<axis>' (every second
+    element of a wider buffer along <axis>) | 'neg' (negative strides on all axes) | 'offset' (a window into a larger buffer)"""
+    a = np.asarray(a)
+    if layout == 'C':
+        out = np.ascontiguousarray(a)
+    elif layout == 'F':
+        out = np.asfortranarray(a)
+    elif layout.startswith('perm:'):
+        perm = [int(x) for x in layout[5:].split(',')][:a.ndim]
+        perm = [x for x in perm if x < a.ndim] + [x for x in range(a.ndim) if x not in perm]
+        inv = np.argsort(perm)
+        out = np.ascontiguousarray(a.transpose(perm)).transpose(inv)
+    elif layout.startswith('strided:'):
+        ax = int(layout[8:]) % a.ndim
+        shape = list(a.shape)
+        shape[ax] = 2 * shape[ax] + 1
+        big = np.zeros(shape, dtype=a.dtype)
+        sl = [slice(None)] * a.ndim
+        sl[ax] = slice(1, None, 2)
+        big[tuple(sl)] = a
+        out = big[tuple(sl)]
+    elif layout == 'neg':
+        rev = tuple(slice(None, None, -1) for _ in range(a.ndim))
+        out = np.ascontiguousarray(a[rev])[rev]
+    elif layout == 'offset':
+        big = np.zeros(tuple(n + 2 for n in a.shape), dtype=a.dtype)
+        sl = tuple(slice(1, n + 1) for n in a.shape)
+        big[sl] = a
+        out = big[sl]
+    else:
+        raise ValueError(layout)
+    assert out.shape == a.shape and out.dtype == a.dtype
+    return out
+
+
+def gen_layout(r, ndim):
+    k = r.choice(['C', 'F', 'F', 'perm', 'perm', 'strided', 'neg', 'offset'])
+    if k == 'perm':
+        ax = list(range(ndim))
+        r.shuffle(ax)
+        return 'perm:' + ','.join(map(str, ax))
+    if k == 'strided':
+        return 'strided:%d' % r.randrange(ndim)
+    return k
+
+
+def convert(base, dtype):
+    """the float64 table `base` in another dtype; integer versions are odd numbers (never 0: the observed data are zeros)"""
+    dt = np.dtype(dtype)
+    if dt.kind in 'iu':
+        return (2 * np.round(500 * base) + 1).astype(dt)
+    return base.astype(dt)
+
+
+def counting_sim(*params, batch_size=1, random_state=None, width=2, key=None, layout='C', dtype='f8', depth=0):
     CALLS[key] = CALLS.get(key, 0) + 1
-    return rejmodels.sim_fn(*params, batch_size=batch_size, random_state=random_state, width=width)
+    x = convert(rejmodels.sim_fn(*params, batch_size=batch_size, random_state=random_state, width=width), dtype)
+    if depth:
+        x = np.stack([x * (j + 1) if j % 2 == 0 else -x for j in range(depth)], axis=2)
+    return relayout(x, layout)
 
 
-def counting_summ(x, key=None):
-    if np.any(np.asarray(x) != 0):      # the observed twin applies the same callable to the (all-zero) observed data
+def counting_summ(x, key=None, s_layout='view'):
+    x = np.asarray(x)
+    if np.any(x != 0):      # the observed twin applies the same callable to the (all-zero) observed data
         CALLS[key] = CALLS.get(key, 0) + 1
-    return np.asarray(x)[:, 0]
+    flat = np.array(x.reshape(len(x), -1), dtype=float, order='C')
+    f = flat[:, 0].copy()
+    for j in range(1, flat.shape[1]):       # every entry of the batch takes part, in a fixed order of operations
+        f = f + (j + 1) * 0.125 * flat[:, j]
+    if s_layout == 'C1':
+        return f
+    two = np.stack([f, 2 * f + 1], axis=1)
+    if s_layout == 'view':
+        return two[:, 0]                    # a non-contiguous 1-D view
+    if s_layout == 'F2':
+        return np.asfortranarray(two)
+    if s_layout == 'strided2':
+        return relayout(two, 'strided:1')
+    raise ValueError(s_layout)
 
 
 def summ2(x):
-    return np.asarray(x)[:, -1] * 2.0
+    x = np.asarray(x)
+    return np.array(x.reshape(len(x), -1)[:, -1], dtype=float) * 2.0
 
 
 def build_counting(cfg, key):
@@ -32,15 +111,34 @@ def build_counting(cfg, key):
     params = [t1]
     if cfg.get('two_params'):
         params.append(elfi.Prior('normal', t1, 0.5, model=m, name='t2'))
-    sim = elfi.Simulator(partial(counting_sim, width=cfg.get('width', 2), key=key + ':sim'), *params, model=m, name='sim',
-                         observed=np.zeros((1, cfg.get('width', 2))))
-    s1 = elfi.Summary(partial(counting_summ, key=key + ':s1'), sim, model=m, name='s1')
+    width, depth = cfg.get('width', 2), cfg.get('depth', 0)
+    sim = elfi.Simulator(partial(counting_sim, width=width, key=key + ':sim', layout=cfg.get('layout', 'C'),
+                                 dtype=cfg.get('dtype', 'f8'), depth=depth), *params, model=m, name='sim',
+                         observed=np.zeros((1, width, depth) if depth else (1, width)))
+    s1 = elfi.Summary(partial(counting_summ, key=key + ':s1', s_layout=cfg.get('s_layout', 'view')), sim, model=m, name='s1')
     elfi.Discrepancy(partial(rejmodels.disc_fn, levels=cfg.get('levels', 4)), s1, model=m, name='d')
     return m
 
 
 def blob(outputs):
-    return {k: (np.asarray(v).shape, np.asarray(v).tobytes().hex()) for k, v in sorted(outputs.items())}
+    return {k: (np.asarray(v).shape, str(np.asarray(v).dtype), np.asarray(v).tobytes().hex()) for k, v in sorted(outputs.items())}
+
+
+def same_array(a, b):
+    """same shape, dtype and values bit for bit (in logical order, whatever the memory layouts)"""
+    a, b = np.asarray(a), np.asarray(b)
+    return a.shape == b.shape and a.dtype == b.dtype and a.tobytes() == b.tobytes()
+
+
+def rand_array(rs, shape, dtype):
+    dt = np.dtype(dtype)
+    if dt.kind == 'b':
+        return rs.randint(0, 2, size=shape).astype(dt)
+    if dt.kind in 'iu':
+        return rs.randint(0, 200, size=shape).astype(dt)
+    if dt.kind == 'c':
+        return (rs.normal(size=shape) + 1j * rs.normal(size=shape)).astype(dt)
+    return rs.normal(size=shape).astype(dt)
 
 
 class C05(PropCheck):
@@ -53,19 +151,28 @@ class C05(PropCheck):
     case_timeout = 120
     build_targets = ('Store/Pool.vo',)
     rule = ('(a) symbolic: random model graphs with recording operations, a stored node set (simulators, things computed from them, '
-            'optionally all parameters), 2-3 consecutive BatchHandler runs over one persistent OutputPool (fill, rerun, rerun needing '
-            'more batches, rerun after remove_store, rerun after replacing a downstream node), results/call logs/pool content per batch '
-            'vs the Coq model and the pool-free meaning; (b) numeric: seeded Rejection with OutputPool and on-disk ArrayPool vs the '
-            'same run without a pool (bit identical), operation call counters, pool content vs fresh recomputation, refusal of another '
-            'batch_size / seed; non-trivial = a run that reused at least one held batch; distinct by configuration')
+            'optionally all parameters), 2-4 consecutive runs over one persistent OutputPool, each run on a new inference object '
+            '(new context + handler), on a new handler over the previous context, or on the SAME BatchHandler + ComputationContext '
+            'after reset() (fill, rerun, rerun needing more/fewer batches, rerun after remove_store, rerun after replacing a downstream '
+            'node), results/call logs/pool content per batch vs the Coq model (whose only cross-run state is the net\'s grown output '
+            'set, the executor cache and the pool) and the pool-free meaning; (b) numeric: seeded Rejection with OutputPool and on-disk '
+            'ArrayPool, simulator batches of several dtypes and memory layouts (C, Fortran, permuted axes, strided, negative strides, '
+            '2-D/3-D), a history of sample()/set_objective+iterate calls on the same and on new Rejection objects with several budgets '
+            'vs the same run without a pool (bit identical), operation call counters per call, pool content vs fresh recomputation '
+            '(values, dtype, shape; also after close/open), refusal of another batch_size / seed; (c) store: OutputPool/ArrayPool '
+            'add_batch/get_batch round trips of arrays of many dtypes and layouts, same process, after flush and after close/open; '
+            'non-trivial = a run that reused at least one held batch / a round trip of a non-C-contiguous batch; distinct by configuration')
     trusted = ('symbolic values do not see the random stream: stream transparency is covered by theorem C05_generator_positions and the numeric runs',)
 
     def generate(self):
-        n = 70 if self.tier == 'quick' else 1000
+        n = 90 if self.tier == 'quick' else 1300
         r = self.rng
         for i in range(n):
-            if i % 2 == 0:
+            k = i % 9
+            if k in (0, 2, 4, 6):
                 yield self._gen_symbolic(r)
+            elif k == 8:
+                yield self._gen_store(r)
             else:
                 yield self._gen_numeric(r)
 
@@ -82,10 +189,18 @@ class C05(PropCheck):
         if r.random() < 0.3:
             stored += [s['name'] for s in spec if s['kind'] == 'prior']
         runs = []
-        for k in range(r.randint(2, 3)):
-            outs = r.sample(names, r.randint(1, len(names)))
-            runs.append(dict(outputs=outs, m=r.randint(1, 4), remove=(r.sample(stored, 1) if stored and k > 0 and r.random() < 0.3 else []),
-                             become=(k > 0 and r.random() < 0.3)))
+        for k in range(r.randint(2, 4)):
+            reuse = 'fresh' if k == 0 else r.choice(['fresh', 'fresh', 'handler', 'handler', 'handler', 'ctx'])
+            if reuse == 'fresh':
+                outs = r.sample(names, r.randint(1, len(names)))
+                become = k > 0 and r.random() < 0.3
+            else:
+                # the same inference object (or its context) again: same model, same requested outputs
+                outs = list(runs[-1]['outputs'])
+                become = False
+            runs.append(dict(outputs=outs, m=r.randint(1, 4), reuse=reuse, become=become,
+                             remove=(r.sample(stored, 1) if stored and k > 0 and r.random() < (0.3 if reuse == 'fresh' else 0.2) else [])))
+            self.bump('run:' + reuse)
         self.bump('symbolic')
         self.bump('stored=%d' % len(stored))
         return dict(mode='symbolic', spec=spec, stored=sorted(set(stored)), runs=runs, seed=r.randrange(2 ** 31))
@@ -103,11 +218,19 @@ class C05(PropCheck):
         runs_coq = []
         summary = []
         reused = False
+        ctx = bh = None
+        prev_outs = None
+        chain_removed = []        # stores removed between runs that share one ComputationContext
         for k, run in enumerate(case['runs']):
+            reuse = run.get('reuse', 'fresh') if k > 0 else 'fresh'
             for nm in run['remove']:
                 if pool.has_store(nm):
                     pool.remove_store(nm)
-            if run['become']:
+                    if reuse != 'fresh':
+                        chain_removed.append(nm)
+            if reuse == 'fresh':
+                chain_removed = []
+            if run['become'] and reuse == 'fresh':
                 # replace a downstream deterministic node that is not stored by a fresh operation with the same parents
                 import networkx as nx
                 cands = [s for s in case['spec'] if s['kind'] in ('summary', 'op') and s['name'] not in case['stored']
@@ -121,22 +244,44 @@ class C05(PropCheck):
                         m[s['name']].become(new)
                     except Exception:
                         pass
-            outs = [o for o in run['outputs'] if m.has_node(o)]
-            ctx = ComputationContext(batch_size=2, seed=case['seed'], pool=pool)
+            if reuse == 'fresh':
+                outs = [o for o in run['outputs'] if m.has_node(o)]
+            else:
+                outs = prev_outs
             try:
-                bh = BatchHandler(m, ctx, output_names=outs)
+                if reuse == 'handler':
+                    bh.reset()                       # what set_objective does when the same object is sampled again
+                else:
+                    if reuse == 'fresh':
+                        ctx = ComputationContext(batch_size=2, seed=case['seed'], pool=pool)
+                    bh = BatchHandler(m, ctx, output_names=outs)
             except ValueError as e:
                 if 'Observed nodes must be deterministic' in str(e):
                     self.bump('symbolic_rejected_graph')
                     return dict(mode='symbolic', skipped=True, reused=False, problems=[])
                 raise
+            prev_outs = outs
             batches = []
             for i in range(run['m']):
                 before = {nm: (i in st) for nm, st in pool.stores.items() if st is not None}
                 rec.reset()
-                bh.submit()
-                res, idx = bh.wait_next()
+                try:
+                    bh.submit()
+                    res, idx = bh.wait_next()
+                except KeyError as e:
+                    if chain_removed and "'output'" in str(e):
+                        # known shape: the executor's order cache of this context predates the removal of a store
+                        return dict(mode='symbolic', reused=reused, known=KNOWN_STALE,
+                                    problems=[(KNOWN_STALE, 'run %d (reuse=%s) batch %d after remove_store(%s) on the same context raised %s'
+                                               % (k, reuse, i, ','.join(chain_removed), str(e)[:120]))])
+                    raise
                 assert idx == i
+                # the property itself, on the raw call log: a stored node the pool held for this batch did not run
+                for nm, was in before.items():
+                    if was and nm in rec.log and pool.has_store(nm):
+                        return dict(mode='symbolic', reused=True,
+                                    problems=[('held-store-ran', 'run %d (reuse=%s) batch %d: stored node %s ran although the pool held it'
+                                               % (k, reuse, i, nm))])
                 if any(before.values()):
                     reused = True
                 items = sorted(res.items())
@@ -147,87 +292,185 @@ class C05(PropCheck):
                 st = pool.stores[nm]
                 ent = [] if st is None else ['(%s, %s)' % (cnat(i), cvalue(st[i])) for i in sorted(st)]
                 dump.append('(%s, %s)' % (cstr(nm), clist(ent)))
-            runs_coq.append('{| ro_src := %s; ro_outputs := %s; ro_removed := %s; ro_batches := %s; ro_pool_after := %s |}'
-                            % (snet_of_model(m), clist([cstr(o) for o in outs]), clist([cstr(x) for x in run['remove']]),
+            runs_coq.append('{| ro_reuse := %s; ro_src := %s; ro_outputs := %s; ro_removed := %s; ro_batches := %s; ro_pool_after := %s |}'
+                            % ({'fresh': 'Fresh', 'ctx': 'SameContext', 'handler': 'SameHandler'}[reuse],
+                               snet_of_model(m), clist([cstr(o) for o in outs]), clist([cstr(x) for x in run['remove']]),
                                clist(batches, sep=';\n    '), clist(dump)))
-            summary.append([k, run['m'], len(outs)])
+            summary.append([k, run['m'], len(outs), reuse])
         return dict(mode='symbolic', summary=summary, reused=reused, problems=[],
                     coq='{| o_stored := %s; o_runs := %s |}' % (clist([cstr(s) for s in case['stored']]), clist(runs_coq, sep=';\n  ')))
 
     # ---- numeric -----------------------------------------------------------------------------------
     def _gen_numeric(self, r):
         self.bump('numeric')
-        kind = r.choice(['dict', 'dict', 'array'])
+        kind = r.choice(['dict', 'array', 'array'])
         self.bump('pool=' + kind)
         stored = r.choice([['sim'], ['sim', 's1'], ['s1'], ['sim', 't1'], ['sim', 's1', 'd']])
-        return dict(mode='numeric', cfg=dict(two_params=False, width=r.choice([1, 2]), levels=r.choice([3, 4, 8])),
-                    b=r.choice([1, 2, 4]), n=r.choice([2, 3, 5]), n_sim1=r.randint(4, 12), extra=r.randint(1, 8),
+        depth = r.choice([0, 0, 3])
+        layout = gen_layout(r, 3 if depth else 2)
+        dtype = r.choice(DTYPES_SIM)
+        s_layout = r.choice(['view', 'C1', 'F2', 'strided2'])
+        self.bump('sim_layout=' + layout.split(':')[0] + ('/3d' if depth else '/2d'))
+        self.bump('sim_dtype=' + dtype)
+        self.bump('s1_layout=' + s_layout)
+        n = r.choice([2, 3, 5])
+        n_sim1, extra = r.randint(4, 12), r.randint(1, 8)
+        # the calls after the filling one: which Rejection object, which budget, through which entry point
+        steps = []
+        for _ in range(r.randint(3, 5)):
+            st = dict(obj=r.choice(['same', 'same', 'first', 'new']), budget=r.choice(['ns1', 'ns1', 'ns2', 'ns3', 'small']),
+                      via=r.choice(['sample', 'sample', 'iterate']))
+            steps.append(st)
+            self.bump('step:%s/%s' % (st['obj'], st['budget']))
+        return dict(mode='numeric', cfg=dict(two_params=False, width=r.choice([1, 2, 3]), levels=r.choice([3, 4, 8]), depth=depth,
+                                            layout=layout, dtype=dtype, s_layout=s_layout),
+                    b=r.choice([1, 2, 4, 5]), n=n, n_sim1=n_sim1, extra=extra, extra2=r.randint(1, 6), steps=steps,
                     seed=r.randrange(2 ** 31), pool=kind, stored=stored, change_summary=r.random() < 0.5)
 
     def _run_numeric(self, case):
         import elfi
         import elfi.clients.native as native
         from elfi.store import OutputPool, ArrayPool
+        from elfi.client import BatchHandler
+        from elfi.model.elfi_model import ComputationContext
         elfi.set_client(native.Client())
         problems = []
         key = 'k%d' % case['seed']
         CALLS.clear()
         b, n, seed = case['b'], case['n'], case['seed']
+        stored = list(case['stored'])
         ns1 = max(case['n_sim1'], n)
         ns2 = ns1 + case['extra']
+        budgets = dict(ns1=ns1, ns2=ns2, ns3=ns2 + case.get('extra2', 1), small=max(n, ns1 // 2))
 
-        def run(model, n_sim, pool=None):
+        def call(rej, n_sim, via='sample'):
+            if via == 'iterate':
+                rej.set_objective(n, n_sim=n_sim)
+                while not rej.finished:
+                    rej.iterate()
+                rej.batches.cancel_pending()
+                res = rej.extract_result()
+            else:
+                res = rej.sample(n, n_sim=n_sim, bar=False)
+            return dict(outputs=blob(res.outputs), threshold=float(res.threshold), n_sim=int(res.n_sim))
+
+        def run(model, n_sim, pool=None, via='sample'):
             rej = elfi.Rejection(model['d'], batch_size=b, seed=seed, output_names=['s1'], pool=pool)
-            res = rej.sample(n, n_sim=n_sim, bar=False)
-            return dict(outputs=blob(res.outputs), threshold=float(res.threshold), n_sim=int(res.n_sim)), rej
+            return call(rej, n_sim, via), rej
 
         m = build_counting(case['cfg'], key)
-        ref1, _ = run(m, ns1)
-        ref2, _ = run(m, ns2)
+        refs = {}
+
+        def ref(n_sim):
+            if n_sim not in refs:
+                saved = dict(CALLS)
+                refs[n_sim] = run(m, n_sim)[0]
+                CALLS.clear()
+                CALLS.update(saved)
+            return refs[n_sim]
+        ref1, ref2 = ref(ns1), ref(ns2)
         free_sim_calls = CALLS.get(key + ':sim', 0)
+
+        def fresh_batch(bi):
+            return BatchHandler(m, ComputationContext(batch_size=b, seed=seed), output_names=stored).compute(bi)
+
+        def check_content(pl, upto, when):
+            for bi in range(upto):
+                fresh = fresh_batch(bi)
+                held = pl.get_batch(bi)
+                for nm in stored:
+                    if nm not in held:
+                        problems.append('%s: pool lacks %s for consumed batch %d' % (when, nm, bi))
+                    elif not same_array(held[nm], fresh[nm]):
+                        problems.append('%s: pool content of %s batch %d differs from a fresh computation (held %s %s, fresh %s %s)'
+                                        % (when, nm, bi, np.asarray(held[nm]).dtype, np.asarray(held[nm]).shape,
+                                           np.asarray(fresh[nm]).dtype, np.asarray(fresh[nm]).shape))
+            for nm in stored:
+                st = pl.stores.get(nm)
+                if st is not None and len(st) != upto:
+                    problems.append('%s: store %s holds %d batches after %d were consumed' % (when, nm, len(st), upto))
+
+        def held(pl, nm, bi):
+            st = pl.stores.get(nm) if nm in pl.stores else None
+            return st is not None and bi in st
+
+        def expected_calls(pl, nb):
+            """how often the counting operations must run for batches 0..nb-1 given what the pool holds now: a stored node
+            runs exactly for the batches the pool lacks; the simulator (when not stored) only where the summary must be computed"""
+            e_sim = e_s1 = 0
+            for bi in range(nb):
+                s1_runs = not held(pl, 's1', bi)
+                sim_runs = (not held(pl, 'sim', bi)) and ('sim' in pl.stores or s1_runs)
+                e_s1 += s1_runs
+                e_sim += sim_runs
+            return e_sim, e_s1
+
+        def check_calls(what, e_sim, e_s1):
+            g_sim, g_s1 = CALLS.get(key + ':sim', 0), CALLS.get(key + ':s1', 0)
+            if 'sim' in stored and g_sim != e_sim:
+                problems.append('%s: stored simulator ran %d times, the pool lacked %d of the consumed batches' % (what, g_sim, e_sim))
+            if 's1' in stored and g_s1 != e_s1:
+                problems.append('%s: stored summary ran %d times, the pool lacked %d of the consumed batches' % (what, g_s1, e_s1))
+            if 'sim' not in stored and g_sim != e_sim:
+                problems.append('%s: simulator ran %d times although the summary computed from it had to be computed for %d batches only'
+                                % (what, g_sim, e_sim))
+
         # with a pool: fill
         if case['pool'] == 'array':
             shutil.rmtree('pools', ignore_errors=True)
-            pool = ArrayPool(list(case['stored']), name='p%d' % seed)
+            pool = ArrayPool(stored, name='p%d' % seed)
         else:
-            pool = OutputPool(list(case['stored']))
+            pool = OutputPool(stored)
         CALLS.clear()
+        nb1 = -(-ns1 // b)
         got1, rej = run(m, ns1, pool)
         if got1 != ref1:
             problems.append('filling run differs from the pool-free run')
-        nb1 = -(-ns1 // b)
         calls_fill = dict(CALLS)
+        check_calls('filling run', nb1, nb1)
         if len(pool) != nb1:
             problems.append('pool holds %d batches after consuming %d' % (len(pool), nb1))
-        # pool content = fresh recomputation
-        from elfi.client import BatchHandler
-        from elfi.model.elfi_model import ComputationContext
-        for bi in range(nb1):
-            fresh = BatchHandler(m, ComputationContext(batch_size=b, seed=seed), output_names=list(case['stored'])).compute(bi)
-            held = pool.get_batch(bi)
-            for nm in case['stored']:
-                if nm not in held or np.asarray(held[nm]).tobytes() != np.asarray(fresh[nm]).tobytes():
-                    problems.append('pool content of %s batch %d differs from a fresh computation' % (nm, bi))
-        # reuse with the same budget: stored operations must not run again
+        check_content(pool, nb1, 'after the filling run')
+        consumed = nb1
+        # a history of further calls on the same / the first / a new inference object, several budgets
+        first, last = rej, rej
+        for si, st in enumerate(case.get('steps', [])):
+            n_sim = budgets[st['budget']]
+            nb = -(-n_sim // b)
+            e_sim, e_s1 = expected_calls(pool, nb)
+            CALLS.clear()
+            if st['obj'] == 'new':
+                got, last = run(m, n_sim, pool, st['via'])
+            else:
+                if st['obj'] == 'first':
+                    last = first
+                got = call(last, n_sim, st['via'])
+            what = 'call %d (%s object, %s, n_sim=%d over a pool of %d batches)' % (si + 1, st['obj'], st['via'], n_sim, consumed)
+            if got != ref(n_sim):
+                problems.append('%s differs from the pool-free run' % what)
+            check_calls(what, e_sim, e_s1)
+            consumed = max(consumed, nb)
+            if len(pool) != consumed:
+                problems.append('%s: pool holds %d batches after %d were consumed' % (what, len(pool), consumed))
+        check_content(pool, consumed, 'after the history')
+        # reuse by a new object with the first budget, then a rerun needing more batches than stored
         CALLS.clear()
+        e_sim, e_s1 = expected_calls(pool, nb1)
         got1b, _ = run(m, ns1, pool)
         if got1b != ref1:
             problems.append('reusing run differs from the pool-free run')
-        for nm in ('sim', 's1'):
-            if nm in case['stored'] and CALLS.get(key + ':' + nm, 0) != 0:
-                problems.append('stored node %s ran %d times on reuse' % (nm, CALLS.get(key + ':' + nm)))
-        if 'sim' not in case['stored'] and 's1' in case['stored'] and CALLS.get(key + ':sim', 0) != 0:
-            problems.append('simulator ran on reuse although everything requested downstream of it is stored')
-        # rerun needing more batches than stored
+        check_calls('reusing run', e_sim, e_s1)
+        big = max(budgets.values()) + b * case['extra']
+        nbig = -(-big // b)
+        e_sim, e_s1 = expected_calls(pool, nbig)
         CALLS.clear()
-        got2, _ = run(m, ns2, pool)
-        if got2 != ref2:
+        got2, _ = run(m, big, pool)
+        if got2 != ref(big):
             problems.append('rerun with a larger budget differs from the pool-free run')
-        nb2 = -(-ns2 // b)
-        if 'sim' in case['stored'] and CALLS.get(key + ':sim', 0) != nb2 - nb1:
-            problems.append('simulator ran %d times for %d new batches' % (CALLS.get(key + ':sim', 0), nb2 - nb1))
+        check_calls('rerun with a larger budget (%d batches, %d held)' % (nbig, consumed), e_sim, e_s1)
+        consumed = max(consumed, nbig)
         # change a downstream node and reuse
-        if case['change_summary'] and 's1' not in case['stored']:
+        if case['change_summary'] and 's1' not in stored:
             m2 = build_counting(case['cfg'], key)
             import elfi as _e
             new = _e.Summary(summ2, m2['sim'], model=m2, name='s1_new')
@@ -237,7 +480,7 @@ class C05(PropCheck):
             got3, _ = run(m2, ns2, pool)
             if got3 != ref3:
                 problems.append('after replacing the summary the pooled run differs from the pool-free run')
-            if 'sim' in case['stored'] and CALLS.get(key + ':sim', 0) != 0:
+            if 'sim' in stored and CALLS.get(key + ':sim', 0) != 0:
                 problems.append('simulator ran again after replacing a downstream node')
         # on-disk pool: save, reopen, reuse
         if case['pool'] == 'array':
@@ -246,12 +489,16 @@ class C05(PropCheck):
             name = pool.name
             pool.close()
             pool2 = ArrayPool.open(name)
+            check_content(pool2, consumed, 'after close + open')
             CALLS.clear()
-            got4, _ = run(m, ns1, pool2)
+            got4, rej4 = run(m, ns1, pool2)
             if got4 != ref1:
                 problems.append('reopened on-disk pool gives a different result')
-            if 'sim' in case['stored'] and CALLS.get(key + ':sim', 0) != 0:
-                problems.append('simulator ran again with the reopened on-disk pool')
+            check_calls('run on the reopened on-disk pool', 0, 0)
+            CALLS.clear()
+            if call(rej4, ns2) != ref2:
+                problems.append('second call on the reopened on-disk pool gives a different result')
+            check_calls('second call on the reopened on-disk pool', 0, 0)
             pool2.delete()
             shutil.rmtree('pools', ignore_errors=True)
             pool = None
@@ -269,10 +516,109 @@ class C05(PropCheck):
                     pass
         return dict(mode='numeric', problems=problems, reused=True, calls_fill=calls_fill, free_sim_calls=free_sim_calls)
 
+    # ---- store: pool round trips ----------------------------------------------------------------------
+    def _gen_store(self, r):
+        self.bump('store')
+        kind = r.choice(['array', 'array', 'array', 'dict'])
+        self.bump('store_pool=' + kind)
+        nodes = []
+        for nm in r.sample(['sim', 's1', 'd', 't1'], r.randint(1, 3)):
+            trail = r.choice([[], [r.randint(1, 4)], [r.randint(2, 4)], [r.randint(1, 3), r.randint(2, 3)], [r.randint(2, 3), r.randint(1, 3)]])
+            dtype = r.choice(DTYPES_STORE)
+            nb = r.randint(2, 5)
+            layouts = [gen_layout(r, 1 + len(trail)) for _ in range(nb + 2)]
+            for l in layouts:
+                self.bump('store_layout=%s/%dd' % (l.split(':')[0], 1 + len(trail)))
+            self.bump('store_dtype=' + dtype)
+            nodes.append(dict(name=nm, trail=trail, dtype=dtype, layouts=layouts))
+        return dict(mode='store', pool=kind, b=r.choice([1, 2, 3, 5]), seed=r.randrange(2 ** 31), nodes=nodes,
+                    nb=r.randint(2, 5), readd=r.random() < 0.5, read_between=r.random() < 0.5)
+
+    def _run_store(self, case):
+        from elfi.store import OutputPool, ArrayPool
+        from elfi.model.elfi_model import ComputationContext
+        problems = []
+        b, seed = case['b'], case['seed']
+        names = [nd['name'] for nd in case['nodes']]
+        cls = ArrayPool if case['pool'] == 'array' else OutputPool
+        shutil.rmtree('pools', ignore_errors=True)
+        pool = cls(names, name='s%d' % seed)
+        ComputationContext(batch_size=b, seed=seed, pool=pool)        # hands the pool its batch_size and seed
+        rs = np.random.RandomState(seed % (2 ** 32))
+        expected = {nm: {} for nm in names}
+        nonc = False
+
+        def produce(i):
+            nonlocal nonc
+            batch, keep = {}, {}
+            for nd in case['nodes']:
+                a = rand_array(rs, (b,) + tuple(nd['trail']), nd['dtype'])
+                arr = relayout(a, nd['layouts'][i % len(nd['layouts'])])
+                nonc = nonc or not arr.flags['C_CONTIGUOUS']
+                batch[nd['name']] = arr
+                keep[nd['name']] = np.array(a, order='C', copy=True)
+            return batch, keep
+
+        def check(pl, when):
+            for nm in names:
+                for i, want in expected[nm].items():
+                    got = pl.get_batch(i)
+                    if nm not in got:
+                        problems.append('%s: pool lacks %s batch %d' % (when, nm, i))
+                    elif not same_array(got[nm], want):
+                        g = np.asarray(got[nm])
+                        problems.append('%s: %s batch %d read back differs from what was added (%s %s vs %s %s)'
+                                        % (when, nm, i, g.dtype, g.shape, want.dtype, want.shape))
+                st = pl.stores.get(nm)
+                if st is not None and len(st) != len(expected[nm]):
+                    problems.append('%s: store %s holds %d batches, %d were added' % (when, nm, len(st), len(expected[nm])))
+            extra = pl.get_batch(max([len(e) for e in expected.values()] + [0]))
+            if extra:
+                problems.append('%s: pool returns data for a batch that was never added' % when)
+
+        def add(pl, i):
+            batch, keep = produce(i)
+            snapshot = {k: (v.strides, v.tobytes()) for k, v in batch.items()}
+            batch['not_stored'] = np.zeros(b)                  # results of nodes without a store are ignored
+            pl.add_batch(batch, i)
+            for k, (strides, raw) in snapshot.items():
+                if batch[k].strides != strides or batch[k].tobytes() != raw:
+                    problems.append('add_batch altered the caller\'s array of %s' % k)
+            for nm in names:
+                expected[nm][i] = keep[nm]
+            if case['readd'] and i > 0:
+                other, _ = produce(i)                          # "Do not add again": a held batch is never overwritten
+                pl.add_batch(other, i - 1)
+            if case['read_between']:
+                check(pl, 'after adding batch %d' % i)
+
+        for i in range(case['nb']):
+            add(pool, i)
+        check(pool, 'same process')
+        pool.flush()
+        check(pool, 'after flush')
+        pool.save()
+        name = pool.name
+        pool.close()
+        pool2 = cls.open(name)
+        check(pool2, 'after close + open')
+        if pool2.batch_size != b or pool2.seed != seed:
+            problems.append('reopened pool has batch_size %r seed %r' % (pool2.batch_size, pool2.seed))
+        for i in range(case['nb'], case['nb'] + 2):
+            add(pool2, i)
+        check(pool2, 'appended after reopening')
+        pool2.flush()
+        check(pool2, 'appended after reopening, flushed')
+        pool2.delete()
+        shutil.rmtree('pools', ignore_errors=True)
+        return dict(mode='store', problems=problems, reused=nonc)
+
     def run_impl(self, case):
         try:
             if case['mode'] == 'symbolic':
                 return self._run_symbolic(case)
+            if case['mode'] == 'store':
+                return self._run_store(case)
             return self._run_numeric(case)
         except (AssertionError, KeyboardInterrupt):
             raise
@@ -283,7 +629,16 @@ class C05(PropCheck):
             return dict(mode=case['mode'], reused=True, problems=['a run over the pool raised %s: %s' % (type(e).__name__, str(e)[:200])])
 
     def py_check(self, case, out):
-        return [('numeric', p) for p in out.get('problems', [])[:3]]
+        res = []
+        for p in out.get('problems', [])[:3]:
+            res.append(p if isinstance(p, tuple) else (case['mode'], p))
+        return res
+
+    def classify(self, case, out, clause):
+        # only the one known shape: KeyError in a run that reuses a ComputationContext after a store was removed from its pool
+        if clause == KNOWN_STALE and out.get('known') == KNOWN_STALE and case.get('mode') == 'symbolic':
+            return KNOWN_STALE
+        return None
 
     def nontrivial(self, case, out):
         return json.dumps(case, sort_keys=True) if out.get('reused') else None
